@@ -61,9 +61,11 @@ inductive Label
   | rlCancelled (b : BId)
   | rlDropExit (b : BId)
   -- expect
-  | expectBegin (x : Nat) (b : BId) (key : Key) (k : HId) (pred : Nat) (timeout : Nat)
+  | expectBegin (x : Nat) (b : BId) (key : Key) (k : HId) (pred : Nat) (timeout : Option Nat)
   | expectEnd (x : Nat) (got : Option EId)
   | expectCancel (x : Nat)
+  | expectTimeout (x : Nat)      -- the deadline fires: the call's future is cancelled (the call returns later)
+  | expectCancelReq (x : Nat)    -- the calling task is cancelled: its future is cancelled with it
   deriving Repr, Inhabited
 
 abbrev Checks := List (String × Bool)
@@ -124,7 +126,7 @@ def expectMatch (pred : Nat) (e : EId) : Option Bool :=
 /-- the waiter (external task) an expect handler belongs to, if it is still waiting without a match -/
 def expectOpen (w : World) (x : Nat) (k : HId) : Bool :=
   match w.waiter x with
-  | .expecting _ _ k' _ got => k' == k && got.isNone
+  | .expecting _ _ k' _ got dead => k' == k && got.isNone && !dead
   | _ => false
 
 /-- how the body of an `expect` handler instance ends: it evaluates the predicates only while the future is not done -/
@@ -141,7 +143,7 @@ def noWaiterDeadlineBefore (w : World) (t : Nat) : Bool :=
   (List.range w.nx).all fun x =>
     match w.waiter x with
     | .stopping _ d _ => t ≤ d
-    | .expecting _ _ _ d got => d == 0 || got.isSome || t ≤ d
+    | .expecting _ _ _ d got dead => got.isSome || dead || (match d with | some d => t ≤ d | none => true)
     | _ => true
 
 /-- is the run loop at the root of this instance's executor chain being cancelled -/
@@ -363,10 +365,21 @@ def checks (w : World) : Label → Checks
   | .expectEnd x got =>
     [("expectEnd: expect() returns the event its handler resolved the future with, or times out at its deadline",
         match w.waiter x with
-        | .expecting _ _ _ d g => g == got && (got.isSome || (d != 0 && d ≤ w.now))
+        | .expecting _ _ _ d g _ =>
+          (match got with
+           | some _ => g == got
+           -- (a match resolved in the very instant the deadline fires may lose against the timeout)
+           | none => (match d with | some d => d ≤ w.now | none => false))
         | _ => false)]
   | .expectCancel x =>
     [("expectCancel: task is not blocked in expect()", match w.waiter x with | .expecting .. => true | _ => false)]
+  | .expectTimeout x =>
+    [("expectTimeout: no unresolved expect() call of this task whose deadline has passed",
+        match w.waiter x with
+        | .expecting _ _ _ (some d) none false => d ≤ w.now
+        | _ => false)]
+  | .expectCancelReq x =>
+    [("expectCancelReq: task is not blocked in expect()", match w.waiter x with | .expecting .. => true | _ => false)]
 
 /-- the run loop leaves `step()`: back to the loop head (or out of the loop when the bus was stopped meanwhile) -/
 def rlBack (w : World) (b : BId) : World :=
@@ -518,7 +531,7 @@ def apply0 (w : World) : Label → World
     | .expect x pred =>
       if expectOpen w x (w.inst i).hid && expectMatch pred (w.inst i).ev == some true then
         (match w.waiter x with
-         | .expecting b key k d _ => w'.setWaiter x (.expecting b key k d (some (w.inst i).ev))
+         | .expecting b key k d _ dead => w'.setWaiter x (.expecting b key k d (some (w.inst i).ev) dead)
          | _ => w')
       else w'
     | _ => w'
@@ -577,11 +590,15 @@ def apply0 (w : World) : Label → World
   | .expectBegin x b key k pred to =>
     (w.modBus b fun B => { B with handlers := B.handlers ++ [{ key := key, hid := k, kind := .expect x pred }],
                                   everRegs := B.everRegs ++ [{ key := key, hid := k, kind := .expect x pred }] }).setWaiter x
-      (.expecting b key k (if to == 0 then 0 else w.now + to) none)
+      (.expecting b key k (to.map (w.now + ·)) none false)
   | .expectEnd x _ | .expectCancel x =>
     (match w.waiter x with
-     | .expecting b key k _ _ =>
+     | .expecting b key k _ _ _ =>
        (w.modBus b fun B => { B with handlers := B.handlers.eraseP fun r => r.key == key && r.hid == k }).setWaiter x .idle
+     | _ => w)
+  | .expectTimeout x | .expectCancelReq x =>
+    (match w.waiter x with
+     | .expecting b key k d none _ => w.setWaiter x (.expecting b key k d none true)
      | _ => w)
 
 def apply (w : World) (l : Label) : World := wake (apply0 w l)
